@@ -77,7 +77,8 @@ theorem request_paths_contained (root : Path) (hr : RootOK root) (req : Req) :
 
 example : (Req.delete none []).paths [[70]] = [[[70]]] := by decide
 example : (Req.setInfo none [97] none (some [46, 46, 47, 120])).paths [[70]] =
-    [[[70], [97]], [[70], [97] ++ incSfx], [[70], rsrcPfx ++ [97]], [[70], infoPfx ++ [97]], [[70], [120]], [[70]],
+    [[[70], [97]], [[70], [97] ++ incSfx], [[70], rsrcPfx ++ [97]], [[70], infoPfx ++ [97]], [[70], [120]],
+     [[70], infoPfx ++ [97]], [[70], infoPfx ++ [120]], [[70]],
      [[70], [97]], [[70], [120]], [[70], [97] ++ incSfx], [[70], [120] ++ incSfx], [[70], rsrcPfx ++ [97]], [[70], rsrcPfx ++ [120]],
      [[70], infoPfx ++ [97]], [[70], infoPfx ++ [120]]] := by decide
 
@@ -98,15 +99,19 @@ theorem fs_frame (op : FSOp) (fs : FS) (x : Path) (h : ∀ q ∈ op.paths, ¬ q 
 
 example : lookup (FSOp.apply [([[70]], .dir), ([[79]], .file [1])] (.removeAll [[70]])).2 [[79]] = some (.file [1]) := by decide
 
-/-- For every request, whatever its bytes: nothing outside the root is created, altered or removed. -/
+/-- For every request, whatever its bytes: nothing outside the root is created, altered or removed.
+    Hypothesis `hdir`: the root is an existing directory.  It is what makes the folder rename's
+    information-fork step safe: `.info_<new name>` next to a new path `t'` is outside the root only
+    for `t' = root`, and `os.Rename(t, root)` cannot succeed onto an existing directory
+    (`rename_onto_dir`), so that step is never reached; `root_survives` carries `hdir` along histories. -/
 theorem handle_outside_unchanged (root : Path) (hr : RootOK root) (ig : Bytes → Bool) (fs : FS) (req : Req)
-    (x : Path) (hx : ¬ root <+: x) : lookup (handle root ig fs req).1 x = lookup fs x :=
-  (handle_keeps root hr ig fs req).1 x hx
+    (hdir : lookup fs root = some .dir) (x : Path) (hx : ¬ root <+: x) : lookup (handle root ig fs req).1 x = lookup fs x :=
+  (handle_keeps root hr ig fs req hdir).1 x hx
 
 /-- …and over every history of requests (induction on the request list). -/
 theorem history_outside_unchanged (root : Path) (hr : RootOK root) (ig : Bytes → Bool) (fs : FS) (reqs : List Req)
-    (x : Path) (hx : ¬ root <+: x) : lookup (handleAll root ig fs reqs) x = lookup fs x :=
-  (handleAll_keeps root hr ig fs reqs).1 x hx
+    (hdir : lookup fs root = some .dir) (x : Path) (hx : ¬ root <+: x) : lookup (handleAll root ig fs reqs) x = lookup fs x :=
+  (handleAll_keeps root hr ig fs reqs hdir).1 x hx
 
 example :
     let fs : FS := [([[70]], .dir), ([[70], [97]], .file [1]), ([[70] ++ incSfx], .file [9]), ([rsrcPfx ++ [70]], .file [9])]
@@ -117,8 +122,8 @@ example :
 /-- Aliases: every symlink a request creates points inside the root; if none points outside before a
     history, none does after it (closes the "OS follows symlinks" gap of the lexical argument). -/
 theorem aliases_point_inside (root : Path) (hr : RootOK root) (ig : Bytes → Bool) (fs : FS) (reqs : List Req)
-    (h : LinksInside root fs) : LinksInside root (handleAll root ig fs reqs) :=
-  (handleAll_keeps root hr ig fs reqs).2.1 h
+    (hdir : lookup fs root = some .dir) (h : LinksInside root fs) : LinksInside root (handleAll root ig fs reqs) :=
+  (handleAll_keeps root hr ig fs reqs hdir).2.1 h
 
 example : (handle [[70]] (fun _ => false) [([[70]], .dir), ([[70], [100]], .dir)]
     (.alias none [46, 46, 47, 120] (some [0, 1, 0, 0, 1, 100]))).1 =
@@ -128,7 +133,7 @@ example : (handle [[70]] (fun _ => false) [([[70]], .dir), ([[70], [100]], .dir)
     it is a directory after it (nothing is renamed onto it, removed at it or created over it). -/
 theorem root_survives (root : Path) (hr : RootOK root) (ig : Bytes → Bool) (fs : FS) (reqs : List Req)
     (h : lookup fs root = some .dir) : lookup (handleAll root ig fs reqs) root = some .dir :=
-  (handleAll_keeps root hr ig fs reqs).2.2 h
+  (handleAll_keeps root hr ig fs reqs h).2.2 h
 
 example : lookup (handleAll [[70]] (fun _ => false) [([[70]], .dir), ([[70], [100]], .dir)]
     [.delete none [], .setInfo none [100] none (some []), .move none [] none, .newFolder none [], .alias none [100] (some [0, 1, 0, 0, 2, 46, 46])]) [[70]] = some .dir := by
